@@ -45,6 +45,7 @@ CONSTANTS MaxChain,      \* 1..3 length of the longest chain
           Schemes,       \* naming schemes RenameComponents may switch to (rendered by the driver)
           NamingSchemes, \* naming schemes of the extra "naming" base worlds (replica-like names, see NameBases)
           NamingChain,   \* longest chain of a naming base world
+          ContentIds,    \* related contents of the "content" base worlds: subset of RelatedContents
           Emit           \* TRUE: print every pair as JSON
 
 OwnShapeNames   == {"none", "input-ref", "input-copy", "input-output", "data-ref", "data-copy", "appdep-ref", "appdep-link"}
@@ -113,6 +114,7 @@ World(n, own1, up1, img1, same, up2) ==
                              [] i = 3 -> IF n = 3 THEN Producer(NoFile) ELSE Dummy],
      same |-> same,          \* c[1] and c[2] live in the same stage (then the reference may be spelled relatively)
      sib |-> NoSibling,
+     focus |-> "all",        \* "content": a content base world, only the content / file name aspects are perturbed
      where |-> Where0]
 
 Default == [own |-> "input-ref", up |-> "pfile-ref", img |-> "local", same |-> FALSE, up2 |-> "pfile-ref"]
@@ -130,6 +132,22 @@ Bases == { World(p[1], p[2], p[3], p[4], p[5], p[6]) :
 NameBases == { [World(n, Default.own, Default.up, Default.img, FALSE, Default.up2)
                     EXCEPT !.sib = Sibling, !.where.scheme = s, !.where.replicated = r] :
                  n \in 1..NamingChain, s \in NamingSchemes, r \in BOOLEAN }
+
+(* Contents.  A content id is an opaque identity for the specification: DISTINCT IDS ARE DISTINCT CONTENTS, whatever   *)
+(* their bytes have in common.  The ids below are rendered by the driver to bytes that stand in the relations a sloppy  *)
+(* digest confuses: B a base text; B.prefix a proper prefix of it; B.nul the text padded with NUL bytes; B.nl the text   *)
+(* with one more newline; B.big4k / B.big64k texts that start with B and exceed the 4 KiB / 64 KiB block sizes; empty.  *)
+(* ("k1", "k2", "k3", "k9" of the other worlds are unrelated short texts.)                                              *)
+RelatedContents == {"B", "B.prefix", "B.nul", "B.nl", "B.big4k", "B.big64k", "empty"}
+ASSUME ContentIds \subseteq RelatedContents
+
+(* content base worlds: the consumer c[1] reads its own input file AND a file of its producer; the two contents range  *)
+(* over all pairs of related contents; the own file's reference is the shorter or the longer one of the two (the code   *)
+(* visits the references by decreasing length of their text).  Only contents and file names are perturbed (focus).      *)
+ContentBases == { [World(2, Default.own, Default.up, Default.img, FALSE, Default.up2)
+                       EXCEPT !.focus = "content", !.c[1].own.content = ko, !.c[1].up.content = ku,
+                              !.c[1].own.fname = IF long THEN "g1" ELSE "f1"] :
+                    ko \in ContentIds, ku \in ContentIds, long \in BOOLEAN }
 
 ---------------------------------------------------------------------------
 (* The abstract identities *)
@@ -192,9 +210,11 @@ NoAsp == [kind |-> "none", at |-> 0]
 SibAt == 9          \* "position" of the sibling: not an index of the chain
 Other(x, s) == CHOOSE y \in s : y # x
 
-Init == /\ phase = "base" /\ a \in (Bases \cup NameBases) /\ b = a /\ asp = NoAsp
+Init == /\ phase = "base" /\ a \in (Bases \cup NameBases \cup ContentBases) /\ b = a /\ asp = NoAsp
 
+ContentFocus == {"ownContent", "upContent", "ownName", "identity"}
 Pair(kind, at, w) == /\ phase = "base" /\ phase' = "pair" /\ a' = a /\ b' = w /\ asp' = [kind |-> kind, at |-> at]
+                     /\ (a.focus = "all" \/ kind \in ContentFocus)
 
 SetC(i, f, v)   == [a EXCEPT !.c[i][f] = v]
 SetOwn(i, f, v) == [a EXCEPT !.c[i].own[f] = v]
@@ -206,11 +226,13 @@ HasUpA(i) == HasUp(a, i)
 (* -- aspects the strong hash of c[i] depends on ------------------------- *)
 ChangeExecutable(i) == i <= a.n /\ Pair("exe", i, SetC(i, "exe", "e2"))
 ChangeLiteral(i)    == i <= a.n /\ Pair("lit", i, SetC(i, "lit", "l2"))
-ChangeOwnContent(i) == HasOwn(i) /\ Pair("ownContent", i, SetOwn(i, "content", "k9"))
+(* the new content: an unrelated one in the ordinary worlds, every other related one in the content worlds *)
+NewContent(i, old, k) == k # old /\ IF a.focus = "all" THEN k = "k9" ELSE (i = 1 /\ k \in ContentIds)
+ChangeOwnContent(i, k) == HasOwn(i) /\ NewContent(i, a.c[i].own.content, k) /\ Pair("ownContent", i, SetOwn(i, "content", k))
 ChangeOwnMethod(i, m) == /\ HasOwn(i) /\ m # a.c[i].own.method
                          /\ Pair("ownMethod", i, SetOwn(i, "method", m))
-ChangeProducedContent(i) == /\ HasUpA(i) /\ a.c[i].up.kind = "pfile"
-                            /\ Pair("upContent", i, SetUp(i, "content", "k9"))
+ChangeProducedContent(i, k) == /\ HasUpA(i) /\ a.c[i].up.kind = "pfile" /\ NewContent(i, a.c[i].up.content, k)
+                               /\ Pair("upContent", i, SetUp(i, "content", k))
 ChangeUpMethod(i, m) == /\ HasUpA(i) /\ a.c[i].up.kind = "pfile" /\ m # a.c[i].up.method
                         /\ Pair("upMethod", i, SetUp(i, "method", m))
 ChangeImage(i) == /\ i <= a.n
@@ -221,7 +243,7 @@ ChangeImage(i) == /\ i <= a.n
 
 (* -- aspects no hash may depend on --------------------------------------- *)
 LiteralViaVariable(i) == i <= a.n /\ Pair("viaVar", i, SetC(i, "viaVar", TRUE))   \* same resolved arguments
-RenameOwnFile(i)      == HasOwn(i) /\ Pair("ownName", i, SetOwn(i, "fname", "g1"))
+RenameOwnFile(i)      == HasOwn(i) /\ Pair("ownName", i, SetOwn(i, "fname", IF a.c[i].own.fname = "g1" THEN "f1" ELSE "g1"))
 RenameProducedFile(i) == HasUpA(i) /\ a.c[i].up.kind = "pfile" /\ Pair("upName", i, SetUp(i, "fname", "g2"))
 RespellReference      == HasUpA(1) /\ a.same /\ Pair("respell", 1, SetUp(1, "rel", TRUE))
 ChangeBackendOnly(i)  == /\ i <= a.n
@@ -246,7 +268,9 @@ Identity              == phase = "base" /\ Pair("identity", 0, a)
 RemoveOwnFile(i)      == HasOwn(i) /\ Pair("ownMissing", i, SetOwn(i, "present", FALSE))
 RemoveProducedFile(i) == HasUpA(i) /\ a.c[i].up.kind = "pfile" /\ Pair("upMissing", i, SetUp(i, "present", FALSE))
 
-Next == \/ \E i \in 1..3 : \/ ChangeExecutable(i) \/ ChangeLiteral(i) \/ ChangeOwnContent(i) \/ ChangeProducedContent(i)
+Next == \/ \E i \in 1..3, k \in {"k9", "B", "B.prefix", "B.nul", "B.nl", "B.big4k", "B.big64k", "empty"} :
+                 ChangeOwnContent(i, k) \/ ChangeProducedContent(i, k)
+        \/ \E i \in 1..3 : \/ ChangeExecutable(i) \/ ChangeLiteral(i)
                            \/ ChangeImage(i) \/ LiteralViaVariable(i) \/ RenameOwnFile(i) \/ RenameProducedFile(i)
                            \/ ChangeBackendOnly(i) \/ ChangeResources(i) \/ ChangeEnvironment(i)
                            \/ RemoveOwnFile(i) \/ RemoveProducedFile(i)
